@@ -213,7 +213,11 @@ func (w *World) checkNamespaceInheritance(P string, sf *storeFacts, pullers []*s
 		if pull == nil {
 			continue
 		}
-		header := pull.Block()
+		es := storeEventSource(fn)
+		if es == nil {
+			continue
+		}
+		header := es.header
 		var flag *ssa.Phi
 		var cur *ssa.Phi
 		for _, in := range header.Instrs {
@@ -221,7 +225,7 @@ func (w *World) checkNamespaceInheritance(P string, sf *storeFacts, pullers []*s
 			if !ok {
 				continue
 			}
-			if b, ok := ph.Type().Underlying().(*types.Basic); ok && b.Kind() == types.Bool {
+			if b, ok := ph.Type().Underlying().(*types.Basic); ok && b.Kind() == types.Bool && ssa.Value(ph) != es.isEnd {
 				flag = ph
 			}
 			if pt, ok := ph.Type().(*types.Pointer); ok && types.Identical(pt.Elem(), sf.T) {
@@ -245,7 +249,7 @@ func (w *World) checkNamespaceInheritance(P string, sf *storeFacts, pullers []*s
 			if bt, cf, ff, okB := builderType(fn, sf); okB {
 				for _, k := range []string{"end", "namespace", "attribute", "element", "other"} {
 					for _, fv := range []bool{false, true} {
-						bo := w.simulateBuilderIteration(fn, pull, H, sf, bt, cf, ff, k, fv)
+						bo := w.simulateBuilderIteration(fn, es, H, sf, bt, cf, ff, k, fv)
 						construct := fmt.Sprintf("event loop of %s: %s event, namespaces %s", fn.Name(), k, map[bool]string{true: "already inherited", false: "not yet inherited"}[fv])
 						if bo.und != "" {
 							w.undecided(P, "R10.9", construct, pull.Pos(), bo.und)
@@ -260,19 +264,7 @@ func (w *World) checkNamespaceInheritance(P string, sf *storeFacts, pullers []*s
 			w.undecided(P, "R10.9", "event loop of "+fn.Name(), pull.Pos(), "the loop that pulls events has no boolean loop variable recording whether the current element has inherited its namespaces: the once-per-element discipline cannot be followed")
 			continue
 		}
-		var isEndV, errV, nodeV ssa.Value
-		for _, rr := range referrers(pull) {
-			if ex, ok := rr.(*ssa.Extract); ok {
-				switch ex.Index {
-				case 0:
-					nodeV = ex
-				case 1:
-					isEndV = ex
-				case 2:
-					errV = ex
-				}
-			}
-		}
+		isEndV, errV, nodeV := es.isEnd, es.err, es.node
 		kinds := []string{"end", "namespace", "attribute", "element", "other"}
 		type outcome struct {
 			h        int // index of the call of H in the trace, -1 none
@@ -285,6 +277,9 @@ func (w *World) checkNamespaceInheritance(P string, sf *storeFacts, pullers []*s
 		run := func(kind string, flagVal bool) outcome {
 			o := outcome{h: -1, first: -1, hArgOK: true}
 			atom := func(v ssa.Value) (bool, bool) {
+				if v == isEndV {
+					return kind == "end", true
+				}
 				switch x := v.(type) {
 				case *ssa.Phi:
 					if x == flag {
@@ -380,7 +375,7 @@ func (w *World) checkNamespaceInheritance(P string, sf *storeFacts, pullers []*s
 			b := header
 			var prev *ssa.BasicBlock
 			idx := 0
-			start := instrIndex(pull) + 1
+			start := es.start
 			for steps := 0; steps < 300; steps++ {
 				if prev != nil {
 					for _, in := range b.Instrs {
